@@ -45,7 +45,10 @@ class Contract:
         raise NotImplementedError
 
     def canaries(self, tier):
-        """[(inst, canary_name, clause_expected_to_fail)]"""
+        """[(inst, canary_name, clause_prefix_expected_to_fail[, props])]
+        A canary is a deliberately wrong variant of the *specification*; the
+        run must refute it (guards against a vacuous/unsound verifier).
+        Without *props* it belongs to the contract's first property."""
         return []
 
     def replay(self, inst, clause, model, info):
@@ -166,6 +169,7 @@ def run_task(task):
             for note in p.ctx.notes:
                 out["undecided"].append(f"path {pi}: {note}")
             for ob in p.ctx.side_obligations:
+                out["generated_any_prop"] = out.get("generated_any_prop", 0) + 1
                 info = ob["info"] or {}
                 props = info.get("props")
                 if props is not None and prop not in props:
@@ -226,7 +230,11 @@ def tasks_for(prop, tier, timeout_ms):
             continue
         for inst in c.instances(tier):
             tasks.append((c.name, inst, prop, tier, None, timeout_ms))
-        for inst, canary, clause in c.canaries(tier):
+        for can in c.canaries(tier):
+            inst, canary, clause = can[:3]
+            cprops = can[3] if len(can) > 3 else c.properties[:1]
+            if prop not in cprops:
+                continue
             canary_tasks.append(
                 ((c.name, inst, prop, tier, canary, timeout_ms), clause))
     return tasks, canary_tasks
